@@ -280,6 +280,11 @@ pub fn run(args: &Args) -> i32 {
                 let call = nr + 1; // with one recv per round, recv call #k happens in round k
                 let inert = strat::run_strategy(tcp_cfg(init, &sizes, vec![(call, u16::MAX)]), Chooser::new(&[], 0));
                 execs += 1;
+                if used.is_empty() {
+                    // the run did not have the expected round structure (already reported by the monitor)
+                    n += if n < 4 || n > 500 || (250..262).contains(&n) { 1 } else { nstep };
+                    continue;
+                }
                 let mut xs = vec![used[0], *used.last().unwrap(), used[used.len() / 2]];
                 // sequences of the n-round that map onto slots where earlier rounds left an
                 // Awaited probe behind (their last slot)
@@ -419,6 +424,9 @@ pub fn run(args: &Args) -> i32 {
                 }
                 let inert = strat::run_strategy(dublin_v6_cfg(init, m, rounds, vec![(call, u16::MAX)]), Chooser::new(&[], 0));
                 execs += 1;
+                if used.is_empty() {
+                    continue;
+                }
                 let mut xs = vec![used[0], *used.last().unwrap()];
                 xs.dedup();
                 for x in xs {
